@@ -23,6 +23,7 @@
 #define vf_introspect VF_X(_vf_introspect)
 #define vf_is_mp11 VF_X(_vf_is_mp11)
 #define vf_probe VF_X(_vf_probe)
+#define vf_cnt VF_X(_vf_cnt)
 #define vf_reuse_moved_from VF_X(_vf_reuse_moved_from)
 #define vf_qsize2 VF_X(_vf_qsize2)
 #define vf_execq2 VF_X(_vf_execq2)
@@ -223,4 +224,32 @@ namespace boost {
 inline void throw_exception(std::exception const&) { __builtin_trap(); }
 inline void throw_exception(std::exception const&, boost::source_location const&) { __builtin_trap(); }
 }
+#endif
+
+
+// ---- C16: verification archive (environment stub standing in for a Boost.Serialization archive).  Contract of any
+// archive: primitives come back in the order they were written; classes are visited through serialize(ar, version).
+#ifdef VF_SERIALIZE
+#include <type_traits>
+struct vf_archive {
+  int* buf; int pos; bool saving;
+  typedef mpl::bool_<true> is_saving;   // (not consulted by MSM)
+  vf_archive(int* b, bool s) : buf(b), pos(0), saving(s) {}
+  template <class T> typename std::enable_if<std::is_arithmetic<T>::value || std::is_enum<T>::value>::type io(T& t) {
+    if (saving) buf[pos++] = (int)t; else t = (T)buf[pos++];
+  }
+  template <class T, std::size_t N> void io(T (&a)[N]) { for (std::size_t i = 0; i < N; ++i) io(a[i]); }
+  template <class T> typename std::enable_if<std::is_class<T>::value>::type io(T& t) { t.serialize(*this, 0u); }
+  template <class T> vf_archive& operator&(T& t) { io(t); return *this; }
+  template <class T> vf_archive& operator&(T const& t) { io(const_cast<T&>(t)); return *this; }
+};
+namespace boost { namespace serialization {
+// what base_object<Base>(derived) provides to MSM's serialize(): the Base sub-object (the registration machinery of the
+// compiled Boost.Serialization library is not part of MSM and not modelled)
+template <class Base, class Derived> Base& base_object(Derived& d) { return d; }
+} }
+#define VF_SER_STATE(I) int cnt = 0; \
+  template <class E, class F> void on_entry(E const& e, F& f) { ++cnt; vf_log(VF_ENTRY(I), vf_pay(e)); } \
+  template <class E, class F> void on_exit(E const& e, F& f) { vf_log(VF_EXIT(I), vf_pay(e)); }
+#define VF_SER_DO typedef int do_serialize; template <class Ar> void serialize(Ar& ar, const unsigned int) { ar & cnt; }
 #endif
